@@ -98,6 +98,12 @@ def scenario_scope(res, pid, rng, tier):
     variants = [dict(prefixes=None, nets=None), dict(prefixes=[], nets=None), dict(prefixes=None, nets=[net]),
                 dict(prefixes=[net], nets=None), dict(prefixes=None, nets=None, b4=0), dict(prefixes=["10.0.0.0/8"], nets=[net]),
                 dict(prefixes=None, nets=None, b4=16, b6=0), dict(prefixes=[], nets=[net])]
+    variants += [dict(prefixes=None, nets=["96.0.0.0/4"]), dict(prefixes=["10.0.0.0/8", "10.0.1.0/24"], nets=None),
+                 dict(prefixes=["10.0.1.0/24", "10.0.0.0/8"], nets=None), dict(prefixes=["192.0.2.0/24", "10.0.0.0/8"], nets=None),
+                 dict(prefixes=None, nets=None, b4=32, b6=32), dict(prefixes=None, nets=None, b4=32, b6=64), dict(prefixes=None, nets=["8.0.0.0/6", "44.0.0.0/8"])]
+    lines += ["ip address %s" % a for a in ("96.1.2.3", "100.1.2.3", "111.2.3.4", "95.255.0.1", "10.0.0.5", "10.0.2.5", "10.0.1.9", "8.1.1.1", "11.1.1.1", "12.1.1.1",
+                                            "192.000.002.010", "192.0.2.010", "010.000.001.009", "44.001.002.003")]
+    lines += ["set address 2001:DB8:0:0:0:0:0:1", "set address 2001:0db8::0001"]
     if res.seed % 2:
         variants.reverse()
     for v in variants + variants[:2]:
@@ -196,15 +202,21 @@ def scenario_scope(res, pid, rng, tier):
 
     # ---- F. IPv6 values below 2^32: anonymize, then undo with a fresh anonymizer; whole-address preservation
     small = ["::ffff:c0a8:101", "::ffff:0:c0a8:101", "64:ff9b::c0a8:101", "::ffff:a01:203", "::5", "::1:2", "::ffff", "::1:0:0", "::%x" % rng.randint(1, 65535), "::%x:%x" % (rng.randint(1, 65535), rng.randint(0, 65535))]
-    ls = ["set address %s" % a for a in small]
+    ls = ["set address %s" % a for a in small] + ["set address dead:beef::cafe", "neighbor fe::ab up", "peer dead:beef::caf", "ipv6 route ::/0 ::1", "via :: dev x",
+                                                     "set address 2001:DB8:0:0:0:0:0:1", "set address FE80:0000:0000:0000:0202:B3FF:FE1E:8329"]
+    small = small + ["dead:beef::cafe", "fe::ab", "dead:beef::caf", None, None, "2001:db8::1", "fe80::202:b3ff:fe1e:8329"]
     ctx = {"salt": salt}
     got = _try(fails, "small IPv6 values", ctx, lambda: _run(_fa(salt), ls))
     if got is not None:
         _cmp(fails, "an IPv6 address with a small value is not replaced by the canonical text of its image", ctx, ls, got, spec_lines(salt, ls))
         back = _try(fails, "small IPv6 values, undo", ctx, lambda: _run(_fa(salt, undo=True), got))
         if back is not None:
-            exp_back = ["set address %s" % ipaddress.IPv6Address(a) for a in small]
-            _cmp(fails, "undo does not return an IPv6 address with a small value in IPv6 spelling", ctx, got, back, exp_back)
+            exp_back = spec_lines(salt, got, undo=True)
+            _cmp(fails, "undo does not return an IPv6 address (small value, hex letters only, unspecified address) in canonical IPv6 spelling", ctx, got, back, exp_back)
+            for l0, b0, a in zip(ls, back, small):
+                if a is not None and next((t_ for t_ in b0.split() if ":" in t_), None) != str(ipaddress.IPv6Address(a)):
+                    fails.append(dict(ctx, kind="anonymize then undo does not give the canonical spelling of the IPv6 address", line=l0, undone=b0))
+                    break
     for b6 in (128, 127, 96):
         got = _try(fails, "IPv6 host bits %d" % b6, ctx, lambda: _run(_fa(salt, b6=b6), ls))
         if got is not None:
@@ -394,6 +406,29 @@ def scenario_scope(res, pid, rng, tier):
             if bad:
                 fails.append(dict(ctx, kind="command line: a pair in the dumped map disagrees with the mapping of the salt that was given", pairs=bad[:3]))
     res.nt(("scn", "cli-salt"))
+
+    # ---- P. replacement is by position, not by text: an address that is a piece of another token of the same line (of a mask,
+    #         of a preserved address, of the replacement just written) is handled on its own
+    c4p = ipgen.Cfg(4, salt, 8, None, None, "md5")
+    seeds_ = [rnd() for _ in range(6)]
+    imgs_ = spec_images(c4p, seeds_) or []
+    plines = ["ip route 5.0.0.0 255.0.0.0 Null0", "ip route 55.255.255.0 255.255.255.0", "permit 0.0.0.25 0.0.0.255", "permit 92.168.1.10 192.168.1.10",
+              "ip route 5.0.0.0 255.0.0.0 5.0.0.0 55.0.0.0"]
+    for a_, i_ in zip(seeds_, imgs_):
+        tail = v4(i_)[1:]
+        try:
+            ipaddress.IPv4Address(tail)
+        except Exception:  # noqa
+            continue
+        plines += ["permit %s %s end" % (v4(a_), tail), "permit %s %s end" % (tail, v4(a_))]
+    for nets_ in (None, ["10.0.0.0/8", "172.16.0.0/12", "192.168.0.0/16"]):
+        ctx = {"salt": salt, "preserve_addresses": nets_}
+        got = _try(fails, "addresses that are pieces of other tokens", ctx, lambda: _run(_fa(salt, nets=nets_), plines))
+        res.evaluations += len(plines)
+        if got is not None:
+            _cmp(fails, "an address whose text is a piece of another token on the line (mask, preserved address, a replacement) is not handled on its own",
+                 ctx, plines, got, spec_lines(salt, plines, nets=nets_), limit=2)
+    res.nt(("scn", "pieces"))
 
     # ---- L. the empty string is a salt like any other: two anonymizers built with it agree, and compute its map
     ls = ["ip address %s" % v4(rnd()) for _ in range(5)] + ["set address 2001:db8::%x" % rng.randint(1, 9999)]
